@@ -121,7 +121,8 @@ def _worker(args):
     pid, run_seed, tier, idx = args
     try:
         mod = prop_module(pid)
-        spec = mod.spec_from_seed(run_seed, tier)
+        # (a property may reserve the first run indices of a batch for special runs, e.g. one long endurance history)
+        spec = mod.spec_for_index(idx, run_seed, tier) if hasattr(mod, "spec_for_index") else mod.spec_from_seed(run_seed, tier)
         res = isolated_execute(mod, spec)
         res["spec"] = spec if (res.get("violations") or res.get("harness_error") or res.get("keep_spec")) else None
         res["idx"] = idx
